@@ -7,7 +7,7 @@ namespace AM.C17E
 open AM AM.Gen
 
 theorem simple_entries_translated :
-    (Gen.entries.map (·.1)).length = 16 ∧ (Gen.untranslatedEntries.map (·.1)).length = 4 := by decide
+    (Gen.entries.map (·.1)).length = 16 ∧ (Gen.entriesX.map (·.1)).length = 2 ∧ (Gen.untranslatedEntries.map (·.1)).length = 2 := by decide
 
 theorem failed_password_body :
     AM.Sshd.entryOf "failedPasswordAuth" = some (AM.C06E.interp failedPasswordAuthRE entry_failedPasswordAuth) :=
